@@ -55,6 +55,28 @@ func repoTestTraces(run *evid.Run, props map[string]bool) (conns, events int) {
 	}
 	if _, err := os.Stat(tf); err == nil {
 		ss := repoStepTraces(run, tf)
+		if len(ss.Divs) > 0 {
+			// hook events of different goroutines interleave differently from run to run:
+			// only a rejection that repeats on a second run of the suite is reported
+			tf2 := filepath.Join(dir, "trace2.ndjson")
+			cmd2 := exec.Command("go", "test", "-tags", "verif", "-count=1", "-vet=off", ".")
+			cmd2.Dir = cmd.Dir
+			cmd2.Env = append(os.Environ(), "VERIF_TRACE_FILE="+tf2, "GOFLAGS=-mod=mod", "GOPROXY=off", "GOSUMDB=off", "GOTOOLCHAIN=local")
+			cmd2.CombinedOutput()
+			again := map[string]bool{}
+			if _, err := os.Stat(tf2); err == nil {
+				for _, d := range repoStepTraces(run, tf2).Divs {
+					again[d.Prop+"|"+d.Key] = true
+				}
+			}
+			for _, d := range ss.Divs {
+				if again[d.Prop+"|"+d.Key] {
+					run.Report(d)
+				} else if d.Prop == "C03" {
+					fmt.Printf("NOTE repo tests as step traces: a rejection did not repeat on a second run of the suite and is not reported: %s\n", d.Key)
+				}
+			}
+		}
 		fmt.Printf("repo tests as step traces: %d connections, %d within the specification's alphabet (%d steps) explained by SmtpServer!Next, %d rejected; outside the alphabet: %v\n", ss.Conns, ss.InAlphabet, ss.Steps, ss.Rejected, ss.Skipped)
 	}
 	f, err := os.Open(tf)
@@ -228,7 +250,8 @@ func repoLineCmd(line string) (map[string]interface{}, bool) {
 
 type repoStepStats struct {
 	Conns, InAlphabet, Steps, Rejected int
-	Skipped                           []string
+	Skipped                            []string
+	Divs                               []evid.Div // rejections, not yet reported
 }
 
 // repoStepTraces: see Trace_RepoTests.tla. props: the properties the caller reports.
@@ -467,7 +490,7 @@ func repoStepTraces(run *evid.Run, tf string) repoStepStats {
 			fmt.Printf("REJECTED %q step %d %s %s\n", t.lines, bad, b, what)
 		}
 		for _, p := range []string{"C03", "C04", "C08"} {
-			run.Report(evid.Div{Prop: p, Key: fmt.Sprintf("repo-tests:steps:%s", fmt.Sprint(t.evs[bad]["cmd"])),
+			stats.Divs = append(stats.Divs, evid.Div{Prop: p, Key: fmt.Sprintf("repo-tests:steps:%s:%s", fmt.Sprint(t.evs[bad]["cmd"]), strings.Join(t.lines, "|")),
 				Msg:    fmt.Sprintf("a connection of the repository's own test suite (commands %q): step %d %s %s", t.lines, bad, b, what),
 				Replay: map[string]interface{}{"engine": "repo-tests-steps", "lines": t.lines, "events": t.evs[:bad+1]}})
 		}
